@@ -61,6 +61,9 @@ def run(ctx):
     if len(grid) < 15000:
         raise tlc.MachineryError('MC_BR printed only %d scenarios' % len(grid))
     grid.sort(key=repr)
+    if len(grid) > 40000:
+        # thorough tier: TLC checks every scenario; a seeded third of them is also executed on the real code
+        grid = [x for i, x in enumerate(grid) if (i + ctx.seed) % 3 == 0]
     ggroups = C.parallel(_dispatch, [(grid_task, dict(name='mcbr-%d' % i, items=grid[i::16])) for i in range(16)])
     ctx.behaviours += len(grid)
     ctx.extra['mc_br_scenarios_replayed'] = len(grid)
